@@ -23,6 +23,11 @@ XSI = 'xmlns:xsi="http://www.w3.org/2001/XMLSchema-instance"'
 NSD = ' xmlns:t="urn:t" ' + XSI
 XSD_NS = '{http://www.w3.org/2001/XMLSchema'
 
+XPATH_TYPINGS = ['xs:int', 'xs:string', 'xs:decimal', 'xs:double', 'xs:date']
+XPATH_TEST_A = '@min le @max'
+XPATH_TEST_B = 'not(t:lo) or t:lo le t:hi'
+XPATH_TEST_V = "string($value) = '10'"
+
 # every form of namespace constraint of a wildcard (attribute text); the 1.1 forms need XMLSchema11
 ATTR_FORMS = ['namespace="##any"', 'namespace="##other"', 'namespace="##local"', 'namespace="##targetNamespace"',
               'namespace="##local urn:x"', 'namespace="##targetNamespace urn:y"', 'namespace="urn:x urn:y"',
@@ -62,6 +67,8 @@ class Features:
                 plan.append('notation')
             if rng.random() < 0.5:
                 plan.append('wild')
+            if xsd11 and rng.random() < 0.8:
+                plan.append('xpath')
         self.plan = plan
         for k, what in enumerate(plan):
             getattr(self, '_' + what)(k)
@@ -229,6 +236,60 @@ class Features:
         for tag, v in (('notation: declared', f't:npng{n}'), ('notation: not declared', f't:njpg{n}'),
                        ('notation: not a QName', '1 2')):
             self.probes.append({'xml': f'<t:npic{n}{NSD} fmt="{v}"/>', 'tag': tag, 'block': 'notation'})
+
+    # ---- XSD 1.1: textually identical XPath tests over differently typed operands ------------------------
+    def _xpath(self, k: int) -> None:
+        """xs:assert on complex types, xs:assertion facets and type alternatives whose test is THE SAME TEXT in several
+        components while the operands are typed differently (int / decimal / double / string / date): the outcome
+        of `@min le @max` depends on the static types that the schema-bound parser of EACH component sees"""
+        if not self.xsd11:
+            self.tags.append('registry:identical-xpath-tests/skipped (XSD 1.0)')
+            return
+        rng = self.rng
+        nt = rng.randint(3, 4)
+        tys = [rng.choice(XPATH_TYPINGS) for _ in range(nt)]
+        if len(set(tys)) == 1:
+            tys[-1] = 'xs:string' if tys[0] != 'xs:string' else 'xs:int'
+        if 'xs:string' not in tys:
+            tys[rng.randrange(nt)] = 'xs:string'       # numeric vs string: "9" le "10" flips
+        self.tags.append('registry:identical-xpath-tests')
+        for j, ty in enumerate(tys):
+            u = rng.choice(XPATH_TYPINGS)
+            self.tags += ['xpath-operand-typing(attributes):' + ty, 'xpath-operand-typing(children):' + u]
+            self._add('complexType', f'AT{k}_{j}', f'<xs:complexType name="AT{k}_{j}"><xs:sequence>'
+                      f'<xs:element name="lo" type="{u}" minOccurs="0"/><xs:element name="hi" type="{u}" minOccurs="0"/>'
+                      f'</xs:sequence><xs:attribute name="min" type="{ty}"/><xs:attribute name="max" type="{ty}"/>'
+                      f'<xs:assert test="{XPATH_TEST_A}"/><xs:assert test="{XPATH_TEST_B}"/></xs:complexType>')
+            self._add('element', f'ae{k}_{j}', f'<xs:element name="ae{k}_{j}" type="t:AT{k}_{j}"/>')
+        # derived types: the assertion is inherited AND repeated with the same text
+        for j, nm_ in ((0, 'AX'), (1, 'AY')):
+            self._add('complexType', f'{nm_}{k}', f'<xs:complexType name="{nm_}{k}"><xs:complexContent><xs:extension '
+                      f'base="t:AT{k}_{j}"><xs:attribute name="extra" type="xs:int"/><xs:assert test="{XPATH_TEST_A}"/>'
+                      f'</xs:extension></xs:complexContent></xs:complexType>')
+            # type alternatives with the same test text on elements of differently typed declared types
+            self._add('element', f'aa{k}_{j}', f'<xs:element name="aa{k}_{j}" type="t:AT{k}_{j}"><xs:alternative '
+                      f'test="{XPATH_TEST_A}" type="t:{nm_}{k}"/></xs:element>')
+        self.tags.append('identical-xpath-tests:inherited+repeated, alternatives')
+        # assertion facets: the same text, $value typed by the base type
+        bases = rng.sample(['xs:decimal', 'xs:string', 'xs:int', 'xs:double'], rng.randint(2, 3))
+        for j, b in enumerate(bases):
+            self.tags.append('xpath-operand-typing($value):' + b)
+            self._add('simpleType', f'AS{k}_{j}', f'<xs:simpleType name="AS{k}_{j}"><xs:restriction base="{b}">'
+                      f'<xs:assertion test="{XPATH_TEST_V}"/></xs:restriction></xs:simpleType>')
+            self._add('element', f'as{k}_{j}', f'<xs:element name="as{k}_{j}" type="t:AS{k}_{j}"/>')
+        pairs = [('9', '10'), ('10', '9'), ('9.5', '10.0'), ('abc', 'abd'), ('2024-01-09', '2024-01-10')]
+        for j in range(nt):
+            for a, b in pairs[:3] + [rng.choice(pairs[3:])]:
+                self.probes.append({'xml': f'<t:ae{k}_{j}{NSD} min="{a}" max="{b}"><t:lo>{a}</t:lo><t:hi>{b}</t:hi></t:ae{k}_{j}>',
+                                    'tag': 'identical xpath tests: assert over attributes and children', 'block': 'xpath'})
+        for j in (0, 1):
+            for a, b in pairs[:2]:
+                self.probes.append({'xml': f'<t:aa{k}_{j}{NSD} min="{a}" max="{b}" extra="1"/>',
+                                    'tag': 'identical xpath tests: type alternative', 'block': 'xpath'})
+        for j in range(len(bases)):
+            for v in ('10', '10.0', '010'):
+                self.probes.append({'xml': f'<t:as{k}_{j}{NSD}>{v}</t:as{k}_{j}>',
+                                    'tag': 'identical xpath tests: assertion facet', 'block': 'xpath'})
 
     # ---- wildcards shared through referenced attribute groups / model groups ----------------------------
     def _wild(self, k: int) -> None:
@@ -534,7 +595,8 @@ def fingerprint(c: Any, deep: bool, depth: int = 0, top: bool = True) -> Any:
                     (['ref', content.name] if (isinstance(content, XsdSimpleType) and content.parent is None and content.name)
                      else fingerprint(content, deep, depth + 1, False)),
                     None if oc is None else [oc.mode, fingerprint(oc.any_element, deep, depth + 1, False)],
-                    [getattr(a, 'path', None) for a in (getattr(c, 'assertions', None) or [])]]
+                    [[getattr(a, 'path', None), getattr(a, 'xpath_default_namespace', None)]
+                     + ([_bound_to_self(a)] if deep else []) for a in (getattr(c, 'assertions', None) or [])]]
         if isinstance(c, XsdSimpleType):
             if not top and c.parent is None and c.name:
                 return ['ref', c.name]
@@ -555,6 +617,74 @@ def fingerprint(c: Any, deep: bool, depth: int = 0, top: bool = True) -> Any:
         return [cn, getattr(c, 'name', None)]
     except Exception as e:   # noqa  (a half-built component: described by the failure, which must be stable too)
         return [cn, 'fingerprint-raised', type(e).__name__]
+
+
+def _bound_to_self(a: Any) -> Any:
+    """is the schema-bound XPath parser of assertion `a` bound to `a` itself (proxy base element) and to a's schema?"""
+    p = getattr(a, 'parser', None)
+    if p is None:
+        return None
+    px = getattr(p, 'schema', None)
+    if px is None:
+        return 'unbound'
+    return [getattr(px, '_base_element', None) is a, getattr(px, '_schema', None) is a.schema]
+
+
+def xpath_bindings(components: list) -> list:
+    """XPath machinery of the components reachable from the given globals: every parser / parsed token belongs to ONE
+    component, and a schema-bound parser is bound to its own component (assertions.py:91-97: namespaces, $value type,
+    default namespace and the schema proxy whose base element is the assertion of THAT complex type).  Returns the
+    faults: [{'what', 'components'}]."""
+    from xmlschema.validators import XsdAssert, XsdComplexType, XsdElement, XsdSimpleType
+    owners: dict = {}       # id(object) -> (kind, object, {id(owner): description})
+    faults = []
+    seen: set = set()
+
+    def note(kind: str, obj: Any, owner: Any, desc: str) -> None:
+        if obj is None:
+            return
+        e = owners.setdefault(id(obj), (kind, obj, {}))
+        e[2][id(owner)] = desc
+
+    def visit(owner: Any, desc: str) -> None:
+        if id(owner) in seen:
+            return
+        seen.add(id(owner))
+        note('parser', getattr(owner, 'parser', None), owner, desc)
+        note('token', getattr(owner, 'token', None), owner, desc)
+        if isinstance(owner, XsdAssert):
+            b = _bound_to_self(owner)
+            if isinstance(b, list) and not all(b):
+                faults.append({'what': 'the schema-bound XPath parser of an assertion is bound to another component '
+                                       '(proxy base element is the assertion itself, proxy schema is its schema: %r)' % b,
+                               'components': [desc]})
+    for g in components:
+        gname = getattr(g, 'name', None)
+        try:
+            subs = list(g.iter_components())
+        except Exception:   # noqa
+            continue
+        for c in subs:
+            if isinstance(c, XsdComplexType):
+                for a in getattr(c, 'assertions', None) or []:
+                    visit(a, f'assert {getattr(a, "path", None)!r} of complex type {c.name or "(anonymous in " + str(gname) + ")"}')
+            elif isinstance(c, XsdElement):
+                for k, alt in enumerate(getattr(c, 'alternatives', None) or []):
+                    visit(alt, f'alternative #{k} {getattr(alt, "path", None)!r} of element {c.name}')
+                for idn in getattr(c, 'identities', None) or []:
+                    sel = getattr(idn, 'selector', None)
+                    if sel is not None:
+                        visit(sel, f'selector {getattr(sel, "path", None)!r} of {idn.name}')
+                    for f in getattr(idn, 'fields', None) or []:
+                        visit(f, f'field {getattr(f, "path", None)!r} of {idn.name}')
+            elif isinstance(c, XsdSimpleType):
+                for fk, f in (getattr(c, 'facets', None) or {}).items():
+                    if hasattr(f, 'token'):
+                        visit(f, f'assertion facet {getattr(f, "path", None)!r} of simple type {c.name or "(anonymous in " + str(gname) + ")"}')
+    for kind, obj, who in owners.values():
+        if len(who) > 1:
+            faults.append({'what': f'one XPath {kind} object serves {len(who)} components', 'components': sorted(who.values())})
+    return faults
 
 
 def diff_fp(a: Any, b: Any, path: str = '') -> Optional[str]:
